@@ -6,12 +6,12 @@
 use crate::compiler::{BytecodeChunk, Constant, Op, Register};
 use crate::error::{JsError, StackFrame};
 use crate::gc::{Gc, Guard};
-use crate::prelude::{math, *};
+use crate::prelude::*;
 use crate::value::{
     BytecodeFunction, CheapClone, ExoticObject, Guarded, JsFunction, JsObject, JsString, JsValue,
     Property, PropertyKey,
 };
-use crate::value::{to_int32, to_uint32};
+use crate::value::{number_exponentiate, to_int32, to_uint32};
 use core::cmp::Ordering;
 
 /// Order of two operands of `<`, `<=`, `>`, `>=`: two strings compare by
@@ -2146,7 +2146,7 @@ impl BytecodeVM {
             Op::Exp { dst, left, right } => {
                 let left_val = interp.coerce_to_number(self.get_reg(left))?;
                 let right_val = interp.coerce_to_number(self.get_reg(right))?;
-                self.set_reg(dst, JsValue::Number(math::powf(left_val, right_val)));
+                self.set_reg(dst, JsValue::Number(number_exponentiate(left_val, right_val)));
                 Ok(OpResult::Continue)
             }
 
